@@ -143,7 +143,15 @@ def check_get_bases(idx: Index, rep: Report) -> None:
                 elif isinstance(v, ast.Name):
                     # a local accumulated from inner get_bases() calls
                     srcs = [unparse(s.value) for s in walk_local(f.node) if isinstance(s, (ast.Assign, ast.AugAssign, ast.AnnAssign)) and unparse(s.targets[0] if isinstance(s, ast.Assign) else s.target) == v.id and s.value is not None]
-                    if not all(x in ("b", "None", "set[type[Attribute]]()") or "get_bases()" in x for x in srcs):
+                    # locals whose every binding is an inner get_bases() result (assignment or walrus), whatever they are called
+                    bindings: dict[str, list[str]] = {}
+                    for s_ in ast.walk(f.node):
+                        if isinstance(s_, ast.NamedExpr):
+                            bindings.setdefault(s_.target.id, []).append(unparse(s_.value))
+                        elif isinstance(s_, ast.Assign) and len(s_.targets) == 1 and isinstance(s_.targets[0], ast.Name):
+                            bindings.setdefault(s_.targets[0].id, []).append(unparse(s_.value))
+                    inner = {nm for nm, vs in bindings.items() if nm != v.id and all(re.fullmatch(r"[\w.]+\.get_bases\(\)", x) for x in vs)}
+                    if not all(x in inner or x in ("None", "set[type[Attribute]]()", "set()") or "get_bases()" in x for x in srcs):
                         problems.append(("accumulated", f"`{v.id}` is built from {srcs}, not only from inner get_bases() results"))
                 elif re.fullmatch(r"set\(self\._based_constrs(\.keys\(\))?\)|self\._based_constrs\.keys\(\)|\{\*self\._based_constrs\}", unparse(v)):
                     facts = {(unparse(a), p) for a, p in guard_facts(f.node, rt)}
